@@ -382,11 +382,13 @@ Section P.
     generalize (Forall2_In_r _ _ _ (Forall2_Forall_l _ _ _ _ HP Hm)). clear HP Hm. intros G.
     assert (Hin : forall sg', In sg' sigs -> cond_ok (snd sg') c).
     { intros sg' H. eapply merge_cond_ok; [exact Hmc | | exact Hc]. now apply in_map. }
-    clear Hmc. revert sizes F. induction G as [|b sg' bs sigs [[H1 H2] H3] _ IH]; intros sizes F; cbn in F.
+    assert (G' : Forall2 (fun b sg' => Pb b /\ sig_of b = Ok sg' /\ cond_ok (snd sg') c) bs sigs).
+    { revert G. apply Forall2_impl'. intros b sg' [[H1 H2] H3]. auto. }
+    clear G Hin Hmc. revert sizes F. induction G' as [|b sg' bs1 sigs1 (H1 & H2 & H3) _ IH]; intros sizes F; cbn in F.
     - inversion F. constructor.
     - inversion F as [|? n ? sizes' Hn F']; subst. constructor.
-      + split; [exact H1|]. exists sg'. split; [exact H2|]. split; [exact Hn|]. apply Hin. now left.
-      + apply IH; [|exact F']. intros; apply Hin. now right.
+      + split; [exact H1|]. exists sg'. auto.
+      + apply IH. exact F'.
   Qed.
 
   Lemma concat_parts d c pre post N x : has_shape (pre ++ N :: post) x = true ->
@@ -403,16 +405,18 @@ Section P.
     assert (Hle' : acc + n <= N /\ acc + n + sumn sizes <= N) by (unfold sumn in *; cbn in Hle; lia).
     destruct Hle' as [Hl1 Hl2].
     assert (Hp : has_shape (fst sg') (h (acc, n)) = true).
-    { rewrite Hf. unfold h. cbn [fst snd]. replace n with (acc + n - acc) at 1 by lia. apply tslice_shape; [exact Hx|lia|lia]. }
+    { rewrite Hf. unfold h. cbn [fst snd]. replace n with (acc + n - acc) at 1 by lia. apply tslice_shape with (n := N); [exact Hx|lia|lia]. }
     destruct (HP d _ c sg' Hs Hp Hc) as [Hr Hsh]. rewrite Hr. cbn [bind].
-    destruct (IH (acc + n) Hl2) as [E1 E2]. fold h. rewrite E1. cbn [bind]. split; [reflexivity|].
+    destruct (IH (acc + n) Hl2) as [E1 E2]. cbn zeta in E1, E2. subst h. rewrite E1. cbn [bind]. split; [reflexivity|].
     constructor; [now rewrite <- Hf | exact E2].
   Qed.
 
   Lemma concat_good ax bs : Forall Pb bs -> Pb (Concat ax bs).
   Proof.
-    intros HP d x c sg Hs Hx Hc. unfold good. cbn [run den]. unfold shape_d at 1 2. rewrite Hs. cbn [bind].
-    rewrite (check_ok sg x c Hx Hc). cbn [bind]. cbn [sig_of] in Hs.
+    intros HP d x c sg Hs Hx Hc. unfold good.
+    assert (Hd : shape_d (Concat ax bs) = fst sg) by (unfold shape_d; now rewrite Hs).
+    cbn [run den]. rewrite !Hd. rewrite Hs. cbn [bind].
+    rewrite (check_ok sg x c Hx Hc). cbn [bind]. cbn [sig_of] in Hs. clear Hd.
     destruct (mapr sig_of bs) as [sigs|] eqn:Em; cbn [bind] in Hs |- *; [|discriminate].
     unfold concat_sig in Hs.
     destruct (concat_info ax (map fst sigs)) as [[[k s] pts]|] eqn:Ei; cbn [bind] in Hs |- *; [|discriminate].
@@ -435,10 +439,11 @@ Section P.
     destruct (concat_parts d c pre post (sumn sizes) x Hx bs sizes 0 Hparts (le_n _)) as [E1 E2].
     cbn zeta in E1, E2. unfold offsets. rewrite E1. cbn [bind].
     rewrite !map_map2. cbn [fst snd].
-    destruct (tcat_shape pre post _ sizes) with (2 := E2) as (y & Hy & Sy).
+    match type of E2 with Forall2 _ ?ys _ => assert (Hny : ys <> []) end.
     { destruct bs as [|b bs]; [inversion Hparts; subst; congruence|]. destruct sizes; [congruence|]. cbn. discriminate. }
+    destruct (tcat_shape pre post _ sizes Hny E2) as (y & Hy & Sy).
     unfold tcat_d. rewrite Hy. cbn [of_opt bind].
-    replace (map2 (fun a b => Sc (snd (den O a d (tslice (length pre) (fst b) (fst b + snd b) x) c))) bs
+    replace (map2 (fun b' p => Sc (snd (den O b' d (tslice (length pre) (fst p) (fst p + snd p) x) c))) bs
                   (combine (offsets_from 0 sizes) sizes))
       with (map Sc (map snd (map2 (fun b' p => den O b' d (tslice (length pre) (fst p) (fst p + snd p) x) c) bs
                   (combine (offsets_from 0 sizes) sizes)))) by (now rewrite map_map, map_map2).
@@ -474,14 +479,16 @@ Section P.
     cbn in Hle.
     assert (Hp : has_shape (fst sg') (h st) = true) by (rewrite Hf; apply tindex_shape with (n := N); [exact Hx|lia]).
     destruct (HP d _ c sg' Hs Hp Hc) as [Hr Hsh]. rewrite Hr. cbn [bind].
-    destruct (IH (S st)) as [E1 E2]; [lia|]. fold h. rewrite E1. cbn [bind]. split; [reflexivity|].
+    destruct (IH (S st)) as [E1 E2]; [lia|]. cbn zeta in E1, E2. subst h. rewrite E1. cbn [bind]. split; [reflexivity|].
     constructor; [now rewrite <- Hf | exact E2].
   Qed.
 
   Lemma stack_good ax bs : Forall Pb bs -> Pb (Stack ax bs).
   Proof.
-    intros HP d x c sg Hs Hx Hc. unfold good. cbn [run den]. unfold shape_d at 1. rewrite Hs. cbn [bind].
-    rewrite (check_ok sg x c Hx Hc). cbn [bind]. cbn [sig_of] in Hs.
+    intros HP d x c sg Hs Hx Hc. unfold good.
+    assert (Hd : shape_d (Stack ax bs) = fst sg) by (unfold shape_d; now rewrite Hs).
+    cbn [run den]. rewrite !Hd. rewrite Hs. cbn [bind].
+    rewrite (check_ok sg x c Hx Hc). cbn [bind]. cbn [sig_of] in Hs. clear Hd.
     destruct (mapr sig_of bs) as [sigs|] eqn:Em; cbn [bind] in Hs |- *; [|discriminate].
     unfold stack_sig in Hs.
     destruct (stack_info ax (map fst sigs)) as [[k s]|] eqn:Ei; cbn [bind] in Hs |- *; [|discriminate].
@@ -511,13 +518,170 @@ Section P.
     cbn [of_opt bind].
     destruct (stack_parts d c pre post (length bs) x Hx bs 0 Hparts (le_n _)) as [E1 E2].
     cbn zeta in E1, E2. rewrite E1. cbn [bind]. rewrite !map_map2. cbn [fst snd].
-    destruct (tstack_shape pre post _) with (2 := E2) as (y & Hy & Sy).
+    match type of E2 with Forall _ ?ys => assert (Hny : ys <> []) end.
     { destruct bs; [congruence|]. cbn. discriminate. }
+    destruct (tstack_shape pre post _ Hny E2) as (y & Hy & Sy).
     unfold tstack_d. rewrite Hy. cbn [of_opt bind].
     rewrite map2_length, seq_length, Nat.min_id in Sy.
-    replace (map2 (fun a b => Sc (snd (den O a d (tindex (length pre) b x) c))) bs (seq 0 (length bs)))
+    replace (map2 (fun b' i => Sc (snd (den O b' d (tindex (length pre) i x) c))) bs (seq 0 (length bs)))
       with (map Sc (map snd (map2 (fun b' i => den O b' d (tindex (length pre) i x) c) bs (seq 0 (length bs)))))
       by (now rewrite map_map, map_map2).
     rewrite py_sum_scalars. cbn [of_opt bind fst snd]. rewrite map_map2. auto.
+  Qed.
+
+  (* ---------- Vmap ---------- *)
+  Lemma repeat_Forall {X} (P : X -> Prop) v n : P v -> Forall P (repeat v n).
+  Proof. intros H. induction n; cbn; constructor; auto. Qed.
+
+  Lemma vmap_conds_ok n cs0 cax cs c :
+    vmap_cshape n cs0 cax = Ok cs -> (cs0 = None -> cax = None) -> cond_ok cs c ->
+    let r := den_conds n (length (match cs with Some s => s | None => [] end)) cax c in
+    vmap_conds n cs cax c = Ok r /\ length r = n /\ Forall (cond_ok cs0) r.
+  Proof.
+    intros Hv Hn Hc r. subst r. unfold vmap_cshape in Hv. unfold vmap_conds, den_conds.
+    destruct cs0 as [s0|].
+    - destruct cax as [a|].
+      + destruct (py_range_index (length s0 + 1) a) as [k|] eqn:Ek; [|discriminate]. injection Hv as <-.
+        destruct Hc as (cv & -> & Hcv). unfold zk in *. rewrite pslice_firstn, pslice_skipn in *.
+        destruct (py_range_index_spec _ _ _ Ek) as (Hk & _ & Ekk).
+        cbn [app] in *.
+        assert (Hl : length (firstn k s0 ++ n :: skipn k s0) = length s0 + 1).
+        { rewrite !app_length, firstn_length_le by lia. cbn [length]. rewrite skipn_length. lia. }
+        rewrite Hl. unfold np_axis. rewrite Ek, <- Ekk.
+        assert (Lp : length (firstn k s0) = k) by (apply firstn_length_le; lia).
+        replace (nth k (firstn k s0 ++ n :: skipn k s0) 0) with n by (rewrite <- Lp at 1; now rewrite nth_middle').
+        rewrite Nat.eqb_refl.
+        split; [reflexivity|]. split; [now rewrite map_length, seq_length|].
+        apply Forall_map, Forall_forall. intros i Hi. apply in_seq in Hi.
+        exists (tindex k i cv). split; [reflexivity|].
+        assert (Hi' : i < n) by lia.
+        pose proof (tindex_shape (firstn k s0) n (skipn k s0) i cv Hcv Hi') as H.
+        rewrite Lp, firstn_skipn in H. exact H.
+      + injection Hv as <-. destruct Hc as (cv & -> & Hcv).
+        split; [reflexivity|]. split; [apply repeat_length|]. apply repeat_Forall. exists cv. auto.
+    - injection Hv as <-. rewrite (Hn eq_refl). destruct c as [cv|].
+      + split; [reflexivity|]. split; [apply repeat_length|]. apply repeat_Forall. exact I.
+      + split; [reflexivity|]. split; [apply repeat_length|]. apply repeat_Forall. exact I.
+  Qed.
+
+  Definition slice_ok (sg0 : sig) (p : tens * option tens) : Prop :=
+    has_shape (fst sg0) (fst p) = true /\ cond_ok (snd sg0) (snd p).
+
+  Lemma vmap_mapped d sg0 bs : Forall (fun b => Pb b /\ sig_of b = Ok sg0) bs ->
+    forall ps, Forall (slice_ok sg0) ps -> length bs = length ps ->
+    map2r (fun b' p => run O b' d (fst p) (snd p)) bs ps =
+      Ok (map2 (fun b' p => (fst (den O b' d (fst p) (snd p)), Sc (snd (den O b' d (fst p) (snd p))))) bs ps) /\
+    Forall (fun y => has_shape (fst sg0) y = true) (map2 (fun b' p => fst (den O b' d (fst p) (snd p))) bs ps).
+  Proof.
+    induction 1 as [|b bs [HP Hs] _ IH]; intros [|p ps] Fp L; cbn in L; try discriminate; cbn; [split; [reflexivity|constructor]|].
+    inversion Fp as [|? ? [Hx Hc] Fp']; subst.
+    destruct (HP d (fst p) (snd p) sg0 Hs Hx Hc) as [Hr Hsh]. rewrite Hr. cbn [bind].
+    destruct (IH ps Fp') as [E1 E2]; [lia|]. rewrite E1. cbn [bind]. split; [reflexivity|]. constructor; auto.
+  Qed.
+  Lemma vmap_bcast d sg0 b0 : Pb b0 -> sig_of b0 = Ok sg0 ->
+    forall ps, Forall (slice_ok sg0) ps ->
+    mapr (fun p => run O b0 d (fst p) (snd p)) ps =
+      Ok (map (fun p => (fst (den O b0 d (fst p) (snd p)), Sc (snd (den O b0 d (fst p) (snd p))))) ps) /\
+    Forall (fun y => has_shape (fst sg0) y = true) (map (fun p => fst (den O b0 d (fst p) (snd p))) ps).
+  Proof.
+    intros HP Hs. induction 1 as [|p ps [Hx Hc] _ [E1 E2]]; cbn; [split; [reflexivity|constructor]|].
+    destruct (HP d (fst p) (snd p) sg0 Hs Hx Hc) as [Hr Hsh]. rewrite Hr. cbn [bind]. rewrite E1. cbn [bind].
+    split; [reflexivity|]. constructor; auto.
+  Qed.
+  Lemma combine_Forall {X Y} (P : X -> Prop) (Q : Y -> Prop) l1 l2 :
+    Forall P l1 -> Forall Q l2 -> Forall (fun p => P (fst p) /\ Q (snd p)) (combine l1 l2).
+  Proof.
+    intros H1. revert l2. induction H1 as [|a l1 Ha _ IH]; intros l2 H2; cbn; [constructor|].
+    destruct H2 as [|b l2 Hb H2]; constructor; auto.
+  Qed.
+
+  Lemma vmap_good n mapped cax bs : Forall Pb bs -> Pb (Vmap n mapped cax bs).
+  Proof.
+    intros HP d x c sg Hs Hx Hc. unfold good.
+    assert (Hd : cshape_d (Vmap n mapped cax bs) = snd sg) by (unfold cshape_d; now rewrite Hs).
+    cbn [run den]. rewrite !Hd, Hs. cbn [bind].
+    rewrite (check_ok sg x c Hx Hc). cbn [bind]. cbn [sig_of] in Hs. clear Hd.
+    destruct (mapr sig_of bs) as [sigs|] eqn:Em; cbn [bind] in Hs; [|discriminate].
+    unfold vmap_sig in Hs.
+    destruct (if mapped then if Nat.eqb (length sigs) n then same_sig sigs else Err Unsupported
+              else match sigs with [sg0] => Ok sg0 | _ => Err Unsupported end) as [sg0|] eqn:E0; cbn [bind] in Hs; [|discriminate].
+    assert (Hv : exists cs, vmap_cshape n (snd sg0) cax = Ok cs /\ sg = (n :: fst sg0, cs) /\ (snd sg0 = None -> cax = None)).
+    { destruct (snd sg0) as [cs0|] eqn:E1, cax as [a|] eqn:E2; try discriminate;
+        (destruct (vmap_cshape n _ _) as [cs|] eqn:Ev; cbn [bind] in Hs; [|discriminate]);
+        injection Hs as <-; exists cs; repeat split; auto; discriminate. }
+    destruct Hv as (cs & Hv & -> & Hnone). cbn [fst snd] in *.
+    apply has_shape_cons in Hx as (xs & -> & Lx & Fx).
+    destruct (vmap_conds_ok n (snd sg0) cax cs c Hv Hnone Hc) as (Ec & Lc & Fc). cbn zeta in Ec, Lc, Fc.
+    rewrite Ec. cbn [bind].
+    set (cl := den_conds n (length match cs with Some s => s | None => [] end) cax c) in *.
+    assert (Fp : Forall (slice_ok sg0) (combine xs cl)).
+    { apply (combine_Forall (fun t => has_shape (fst sg0) t = true) (cond_ok (snd sg0))); assumption. }
+    assert (Lp : length (combine xs cl) = n) by (rewrite combine_length; lia).
+    apply mapr_Forall2 in Em.
+    destruct mapped.
+    - destruct (Nat.eqb (length sigs) n) eqn:El; [|discriminate]. apply Nat.eqb_eq in El.
+      assert (Hch : Forall (fun b => Pb b /\ sig_of b = Ok sg0) bs).
+      { unfold same_sig in E0. destruct sigs as [|sg1 sigs']; [discriminate|].
+        destruct (forallb (sig_eqb sg1) (sg1 :: sigs')) eqn:Ef; [|discriminate]. injection E0 as ->.
+        rewrite forallb_forall in Ef.
+        generalize (Forall2_ex_l _ _ _ (Forall2_In_r _ _ _ (Forall2_Forall_l _ _ _ _ HP Em))).
+        apply Forall_impl. intros b (sg' & (H1 & H2) & H3). split; [exact H1|]. rewrite H2. f_equal.
+        apply Ef in H3. unfold sig_eqb in H3. apply andb_prop in H3 as [E1 E2].
+        apply shape_eqb_eq in E1. apply oshape_eqb_eq in E2. destruct sg0, sg'; cbn in *; congruence. }
+      assert (Lb : length bs = length (combine xs cl)) by (rewrite Lp, <- El; eapply Forall2_length'; eauto).
+      destruct (vmap_mapped d sg0 bs Hch _ Fp Lb) as [E1 E2]. rewrite E1. cbn [bind].
+      rewrite !map_map2. cbn [fst snd].
+      replace (map2 (fun b' p => Sc (snd (den O b' d (fst p) (snd p)))) bs (combine xs cl))
+        with (map Sc (map snd (map2 (fun b' p => den O b' d (fst p) (snd p)) bs (combine xs cl))))
+        by (now rewrite map_map, map_map2).
+      rewrite tsum_scalars, map_map2. split; [reflexivity|].
+      apply has_shape_Ar. split; [|exact E2]. rewrite map2_length. lia.
+    - destruct sigs as [|sg1 [|]]; try discriminate. injection E0 as ->.
+      inversion Em as [|b0 ? bs' ? Hb0 Em']; subst. inversion Em'; subst. inversion HP as [|? ? HP0 _]; subst.
+      destruct (vmap_bcast d sg0 b0 HP0 Hb0 _ Fp) as [E1 E2]. rewrite E1. cbn [bind].
+      rewrite !map_map. cbn [fst snd].
+      replace (map (fun p => Sc (snd (den O b0 d (fst p) (snd p)))) (combine xs cl))
+        with (map Sc (map snd (map (fun p => den O b0 d (fst p) (snd p)) (combine xs cl))))
+        by (now rewrite !map_map).
+      rewrite tsum_scalars, map_map. split; [reflexivity|].
+      apply has_shape_Ar. split; [|exact E2]. now rewrite map_length.
+  Qed.
+
+  (* ================= the main theorem ================= *)
+  Theorem run_is_den_all : forall b, Pb b.
+  Proof.
+    apply bij_ind'.
+    - apply leaf_good.
+    - intros bs HP d x c sg Hs Hx Hc.
+      apply (good_chain_like bs (Chain bs)); try assumption; try (intros; reflexivity).
+      cbn [sig_of] in Hs. destruct (mapr sig_of bs) as [sigs|] eqn:Em; cbn [bind] in Hs; [|discriminate].
+      eapply chain_children; eauto.
+    - intros bs HP d x c sg Hs Hx Hc.
+      apply (good_chain_like bs (Scan bs)); try assumption; try (intros; reflexivity).
+      cbn [sig_of] in Hs. destruct (mapr sig_of bs) as [sigs|] eqn:Em; cbn [bind] in Hs; [|discriminate].
+      eapply same_children; eauto.
+    - apply invert_good.
+    - apply concat_good.
+    - apply stack_good.
+    - apply vmap_good.
+    - apply partial_good.
+    - apply reshape_good.
+    - apply embed_good.
+  Qed.
+
+  (* every node starts with the checks of _unwrap_check_and_cast *)
+  Lemma run_entry b d x c : run O b d x c =
+    do sg <- sig_of b; do _ <- check sg x c; run O b d x c.
+  Proof.
+    destruct (sig_of b) as [sg|e] eqn:Es; cbn [bind].
+    - destruct (check sg x c) as [[]|e] eqn:Ec; cbn [bind]; [reflexivity|].
+      destruct b; cbn [run]; rewrite Es; cbn [bind]; rewrite Ec; reflexivity.
+    - destruct b; cbn [run]; rewrite Es; reflexivity.
+  Qed.
+  Lemma check_inv sg x c : check sg x c = Ok tt -> has_shape (fst sg) x = true /\ cond_ok (snd sg) c.
+  Proof.
+    unfold check, cond_ok. destruct (has_shape (fst sg) x); cbn; [|discriminate].
+    destruct (snd sg) as [cs|]; [|auto]. destruct c as [cv|]; [|discriminate].
+    destruct (has_shape cs cv) eqn:E; [|discriminate]. eauto.
   Qed.
 End P.
